@@ -22,6 +22,7 @@ nothing overridden) in the component lemmas; `BlkStub` in the assembly lemma (se
 contracts).
 """
 import copy
+import pickle
 
 import numpy as np
 
@@ -102,8 +103,8 @@ def mk_tree(k, grand, hasParent, idx, pw):
 
 
 @lemma(gen={"k": (0, 3), "i0": (-3, 3), "i1": (-3, 3), "i2": (-3, 3)})
-def deep_copy_is_an_equal_shaped_disjoint_relinked_tree(k: int, grand: bool, hasParent: bool, i0: int, i1: int, i2: int, p0: float, p1: float, p2: float, p3: float, x: float):
-    """copy.deepcopy(root) for every shape described in the module docstring: same shape and names, no node / grid /
+def deep_copy_is_an_equal_shaped_disjoint_relinked_tree(k: int, grand: bool, hasParent: bool, viaPickle: bool, i0: int, i1: int, i2: int, p0: float, p1: float, p2: float, p3: float, x: float):
+    """copy.deepcopy(root) and pickle.loads(pickle.dumps(root)) for every shape described in the module docstring: same shape and names, no node / grid /
     location / collection shared with the original, the copied root has no parent (and a detached location), children
     point at the new parent, grids at the new owner, every location of the copy belongs to the copy's grid and the
     grid holds exactly the children's locations; the original tree is untouched."""
@@ -113,7 +114,7 @@ def deep_copy_is_an_equal_shaped_disjoint_relinked_tree(k: int, grand: bool, has
     pw = [p0, p1, p2, p3]
     root, g, kids, gkids, boss = mk_tree(k, grand, hasParent, idx, pw)
     originals = [root] + kids + gkids + ([boss] if hasParent else [])
-    cp = copy.deepcopy(root)
+    cp = pickle.loads(pickle.dumps(root)) if viaPickle else copy.deepcopy(root)
     # --- the root of the copy
     assert none_of(cp, originals) and cp.name == "root" and cp.parent is None, "a new root without parent"
     assert len(cp._children) == k, "equal shape: same number of children"
@@ -255,10 +256,10 @@ def mk_block(fuelFirst, hasParent, fuelOd, cladOd, mult, T, n, h, pw):
     return b, fuel, clad, link, assem
 
 
-@lemma(gen={"g0": (10, 1000), "mult": (1, 300)})
-def deep_copy_of_a_block_relinks_components_materials_and_dimension_links(g0: int, fuelFirst: bool, hasParent: bool, viaModule: bool, fuelOd: float, cladOd: float, mult: int,
+@lemma(gen={"g0": (10, 1000), "mult": (1, 300), "mode": (0, 2)})
+def deep_copy_of_a_block_relinks_components_materials_and_dimension_links(g0: int, fuelFirst: bool, hasParent: bool, mode: int, fuelOd: float, cladOd: float, mult: int,
                                                                         T: float, n: float, h: float, pw: float, x: float):
-    """Block.__deepcopy__ (called as a method and through copy.deepcopy) on a block holding a fuel circle and a clad
+    """Block.__deepcopy__ (called as a method, through copy.deepcopy and through Block.createHomogenizedCopy) on a block holding a fuel circle and a clad
     circle whose inner diameter is LINKED to the fuel's outer diameter (either order of the two in the child list; the
     block with / without an assembly above it): the copy is a new parentless block with two new components in the
     same order, each pointing at the new block, each material pointing at its new component; the clad's link is a
@@ -266,11 +267,12 @@ def deep_copy_of_a_block_relinks_components_materials_and_dimension_links(g0: in
     is the copy's clad; parameter values are equal and stored independently; the three new collections carry three
     different serial numbers larger than the counter was; the original block is untouched."""
     assume(g0 >= 10)
+    mode = choose(mode, 0, 2)
     mk_class(PCC, CNAMES)
     mk_class(PCB, BNAMES)
     pcmod.GLOBAL_SERIAL_NUM = g0
     b, fuel, clad, link, assem = mk_block(fuelFirst, hasParent, fuelOd, cladOd, mult, T, n, h, pw)
-    b2 = copy.deepcopy(b) if viaModule else b.__deepcopy__({})
+    b2 = copy.deepcopy(b) if mode == 0 else (b.__deepcopy__({}) if mode == 1 else b.createHomogenizedCopy())
     originals = [b, fuel, clad] + ([assem] if hasParent else [])
     assert none_of(b2, originals) and isinstance(b2, BlockProbe) and b2.parent is None and b2.name == "B0001-000", "a new block without parent"
     assert len(b2._children) == 2 and b2.spatialLocator.grid is None and not same(b2.spatialLocator, b.spatialLocator)
